@@ -216,15 +216,24 @@ func matchApp(pat, appl *sx, binders []*sx) map[string]*sx {
 	return m
 }
 
+type skolems struct {
+	names map[string][]string // ground quantified formula -> its witnesses
+	decls []string
+	ctr   int
+}
+
 type instCtx struct {
 	funSort   map[string]string // declared function -> result sort text
 	splits    []string // guards of instances that mention a skolem: case-split candidates
 	splitSeen map[string]bool
 	apps      map[string][]*sx // spec-function applications seen in the query, by symbol
 	appSeen   map[string]bool
-	decls     []string       // new skolem declarations
+	decls     []string       // unused (kept for the copy semantics of per-hypothesis contexts)
+	sk        *skolems       // skolem constants, shared by all copies of the context
 	ctr       int
 	cands     map[string][]*sx // sort text -> candidate terms
+	lits      map[string][]*sx // sort text -> literal candidates (used after the others)
+	front     bool             // terms being harvested come from the goal: they go first
 	candSeen  map[string]bool
 	dropped   int
 	instCount int
@@ -237,7 +246,26 @@ func (ic *instCtx) addCand(sortText string, t *sx) {
 		return
 	}
 	ic.candSeen[k] = true
+	if t.list == nil && strings.HasPrefix(t.atom, "#x") && t.atom != "#x0000000000000000" {
+		// literal indices (byte offsets of fixed-width reads) are many and rarely the
+		// instance a proof needs: they come after the program's own values
+		ic.lits[sortText] = append(ic.lits[sortText], t)
+		return
+	}
+	if ic.front {
+		ic.cands[sortText] = append([]*sx{t}, ic.cands[sortText]...)
+		return
+	}
 	ic.cands[sortText] = append(ic.cands[sortText], t)
+}
+
+// candidates: program values first, literals last.
+func (ic *instCtx) candidates(sortText string) []*sx {
+	if len(ic.lits[sortText]) == 0 {
+		return ic.cands[sortText]
+	}
+	out := append([]*sx{}, ic.cands[sortText]...)
+	return append(out, ic.lits[sortText]...)
 }
 
 const sortBV64Text = "(_ BitVec 64)"
@@ -297,15 +325,26 @@ func (ic *instCtx) elim(f *sx, pol int) *sx {
 		binders := f.list[1].list
 		skolemise := (h == "forall" && pol < 0) || (h == "exists" && pol > 0)
 		if skolemise {
+			// one witness per ground formula: the same instance met again in a later round
+			// reuses its skolem constants (declared once, up front)
+			key := f.String()
+			names, cached := ic.sk.names[key]
 			m := map[string]*sx{}
-			for _, b := range binders {
-				ic.ctr++
-				name := fmt.Sprintf("sk_%s_%d", sanitize(b.list[0].atom), ic.ctr)
+			for bi, b := range binders {
 				st := b.list[1].String()
-				ic.decls = append(ic.decls, fmt.Sprintf("(declare-const %s %s)", name, st))
+				var name string
+				if cached {
+					name = names[bi]
+				} else {
+					ic.sk.ctr++
+					name = fmt.Sprintf("sk_%s_%d", sanitize(b.list[0].atom), ic.sk.ctr)
+					ic.sk.decls = append(ic.sk.decls, fmt.Sprintf("(declare-const %s %s)", name, st))
+					names = append(names, name)
+				}
 				m[b.list[0].atom] = atom(name)
 				ic.addSkolemCands(st, name)
 			}
+			ic.sk.names[key] = names
 			return ic.elim(body.subst(m), pol)
 		}
 		// instantiate. A definitional axiom (pattern = one application of a spec function
@@ -336,7 +375,7 @@ func (ic *instCtx) elim(f *sx, pol int) *sx {
 		combos = append(combos, map[string]*sx{})
 		for _, b := range binders {
 			st := b.list[1].String()
-			cs := ic.cands[st]
+			cs := ic.candidates(st)
 			if len(cs) == 0 {
 				// no candidate: the quantified fact contributes nothing
 				if pol > 0 {
@@ -406,7 +445,10 @@ func (ic *instCtx) collectTerms(f *sx, bound map[string]bool) {
 	}
 	if h == "select" && len(f.list) == 3 {
 		addr := f.list[2]
-		if !mentions(addr, "q_") && !mentions(addr, "ai") && !mentions(addr, "zi") && !mentions(addr, "ci") {
+		// only a select on a heap (an array named H...) is indexed by a reference; the content of
+		// a map or of an array value is indexed by its own key sort
+		isHeap := f.list[1].list == nil && strings.HasPrefix(f.list[1].atom, "H")
+		if isHeap && !mentions(addr, "q_") && !mentions(addr, "ai") && !mentions(addr, "zi") && !mentions(addr, "ci") {
 			ic.addCand("Ref", addr)
 			if addr.head() == "idx" && len(addr.list) == 3 {
 				ix := addr.list[2]
@@ -420,6 +462,16 @@ func (ic *instCtx) collectTerms(f *sx, bound map[string]bool) {
 					}
 				}
 			}
+		}
+	}
+	if h == "idx" && len(f.list) == 3 && !mentions(f, "q_") && !mentions(f, "ai") && !mentions(f, "zi") && !mentions(f, "ci") {
+		// an element address built outside a select (the definition of a program value)
+		ix := f.list[2]
+		if ix.list == nil {
+			ic.addCand(sortBV64Text, ix)
+		}
+		if ix.head() == "bvadd" && len(ix.list) == 3 && (ix.list[1].head() == "s_off" || strings.HasSuffix(ix.list[1].atom, "_o")) {
+			ic.addCand(sortBV64Text, ix.list[2])
 		}
 	}
 	if strings.HasPrefix(h, "sf_") {
@@ -436,6 +488,16 @@ func (ic *instCtx) collectTerms(f *sx, bound map[string]bool) {
 	}
 	for _, c := range f.list {
 		ic.collectTerms(c, bound)
+	}
+}
+
+func (s *sx) walkAtoms(f func(string)) {
+	if s.list == nil {
+		f(s.atom)
+		return
+	}
+	for _, c := range s.list {
+		c.walkAtoms(f)
 	}
 }
 
@@ -472,7 +534,7 @@ func instantiateObligation2(text string, maxPerQ int) (string, int, []string) {
 	if goalIdx < 0 {
 		return "", 0, nil
 	}
-	ic := &instCtx{cands: map[string][]*sx{}, candSeen: map[string]bool{}, maxPerQ: maxPerQ, apps: map[string][]*sx{}, appSeen: map[string]bool{}, splitSeen: map[string]bool{}}
+	ic := &instCtx{sk: &skolems{names: map[string][]string{}}, cands: map[string][]*sx{}, lits: map[string][]*sx{}, candSeen: map[string]bool{}, maxPerQ: maxPerQ, apps: map[string][]*sx{}, appSeen: map[string]bool{}, splitSeen: map[string]bool{}}
 	ic.funSort = map[string]string{}
 	for _, f := range forms {
 		if f.head() == "declare-fun" && len(f.list) == 4 {
@@ -501,6 +563,29 @@ func instantiateObligation2(text string, maxPerQ int) (string, int, []string) {
 		return "", 0, nil
 	}
 	ic.collectTerms(goal, nil)
+	// terms hidden behind the names the goal mentions (define-fun'd program values), a few
+	// levels deep: the goal's own addresses and indices come first among the candidates
+	defs := map[string]*sx{}
+	for _, f := range forms {
+		if f.head() == "define-fun" && len(f.list) == 5 && len(f.list[2].list) == 0 && !f.list[4].containsQuant() {
+			defs[f.list[1].atom] = f.list[4]
+		}
+	}
+	visited := map[string]bool{}
+	frontier := []*sx{forms[goalIdx].list[1]}
+	for depth := 0; depth < 4 && len(frontier) > 0; depth++ {
+		var next []*sx
+		for _, t := range frontier {
+			t.walkAtoms(func(a string) {
+				if body, ok := defs[a]; ok && !visited[a] {
+					visited[a] = true
+					ic.collectTerms(body, nil)
+					next = append(next, body)
+				}
+			})
+		}
+		frontier = next
+	}
 	// 2. hypotheses: two rounds so that instances can feed frame axioms
 	hyps := map[int]*sx{}
 	hypDecls := map[int][]string{}
@@ -544,6 +629,24 @@ func instantiateObligation2(text string, maxPerQ int) (string, int, []string) {
 		}
 	}
 	process()
+	// the goal once more: an exists in the goal can now use the witnesses that the
+	// instantiated hypotheses introduced (same skolem constants as in the first pass)
+	func() {
+		defer func() {
+			if r := recover(); r != nil {
+				if _, is := r.(mixedPolarity); !is {
+					panic(r)
+				}
+			}
+		}()
+		goal = ic.elim(forms[goalIdx].list[1], 1)
+	}()
+	// ... and the hypotheses once more at the terms of the goal's new instances (frame axioms
+	// at the addresses the chosen witnesses read)
+	ic.front = true
+	ic.collectTerms(goal, nil)
+	ic.front = false
+	process()
 	// declarations and definitions first (instances may mention constants declared
 	// later than the hypothesis they instantiate), then all assertions in order
 	var b strings.Builder
@@ -554,7 +657,7 @@ func instantiateObligation2(text string, maxPerQ int) (string, int, []string) {
 		}
 		b.WriteString(f.String() + "\n")
 	}
-	for _, d := range ic.decls {
+	for _, d := range ic.sk.decls {
 		b.WriteString(d + "\n")
 	}
 	for i, f := range forms {
@@ -565,9 +668,6 @@ func instantiateObligation2(text string, maxPerQ int) (string, int, []string) {
 			if r == nil {
 				ic.dropped++
 				continue
-			}
-			for _, d := range hypDecls[i] {
-				b.WriteString(d + "\n")
 			}
 			b.WriteString("(assert " + r.String() + ")\n")
 			continue
